@@ -150,6 +150,20 @@ def spell(n):
                 inner["cond"] = dict(c)
                 inner["cond"]["init"] = init["recv"]
                 return {"k": "If", "ty": n.get("ty"), "sp": n.get("sp"), "cond": cl["body"], "then": _as_block(inner), "canon": "filter-guard"}
+    if k == "If" and n["cond"].get("k") == "LetCond" and not n.get("else"):
+        # `if let (true, P) = (c, e) { b }` with pure c and e: `if c { if let P = e { b } }`
+        c = n["cond"]
+        p, init = c["pat"], tir.strip(c["init"])
+        if p.get("k") == "Tuple" and len(p.get("pats", [])) == 2 and init.get("k") == "Tup" and len(init["elems"]) == 2:
+            for bi in (0, 1):
+                bp, be = p["pats"][bi], init["elems"][bi]
+                op_, oe = p["pats"][1 - bi], init["elems"][1 - bi]
+                if bp.get("k") == "Lit" and bp["e"].get("lit") == "bool" and bp["e"].get("v") is True and pure_expr(be) and pure_expr(oe):
+                    inner = dict(n)
+                    inner["cond"] = dict(c)
+                    inner["cond"]["pat"] = op_
+                    inner["cond"]["init"] = oe
+                    return {"k": "If", "ty": n.get("ty"), "sp": n.get("sp"), "cond": be, "then": _as_block(inner), "canon": "tuple-guard"}
     if k == "Loop" and n.get("src") == "While":
         # `while let Some(x) = it.next() { body }` with `it` a plain local not mentioned in the body is `for x in it { body }`
         b = n.get("body") or {}
@@ -352,6 +366,30 @@ def inline_helpers(doc, anchors):
         ret_err_only = _ret_ok_only_err(ht["value"])
         sites = [0]
 
+        def instantiate(body, call):
+            """a generic helper: its type parameters are replaced by the use's instantiation in expression types and instantiations"""
+            gen = fns.get(h, {}).get("generics") or []
+            inst = [g for g in (call.get("gargs") or []) if isinstance(g, str) and not g.startswith("'")]
+            if not gen or len(inst) < len(gen):
+                return
+            tymap = dict(zip(gen, inst[-len(gen):] if len(inst) > len(gen) else inst))
+            import re as _re
+            rx = _re.compile(r"\b(" + "|".join(_re.escape(g) for g in tymap) + r")\b")
+
+            def subty(x):
+                if isinstance(x, dict):
+                    for key in ("ty", "aty"):
+                        if isinstance(x.get(key), str):
+                            x[key] = rx.sub(lambda m: tymap[m.group(1)], x[key])
+                    if isinstance(x.get("gargs"), list):
+                        x["gargs"] = [rx.sub(lambda m: tymap[m.group(1)], g) if isinstance(g, str) else g for g in x["gargs"]]
+                    for v in x.values():
+                        subty(v)
+                elif isinstance(x, list):
+                    for v in x:
+                        subty(v)
+            subty(body)
+
         def expand(call, args, as_try):
             counter[0] += 1
             offset = 1000000 * counter[0]
@@ -370,6 +408,7 @@ def inline_helpers(doc, anchors):
                     q["id"] = p["id"] + offset
                     lets.append({"k": "Let", "sp": call.get("sp"), "pat": q, "init": a, "canon": "param"})
             body = _fresh(ht["value"], offset, subst)
+            instantiate(body, call)
             if as_try:
                 # value of `helper(..)?`: the Ok payload of the tail; `?` and `return Err` inside keep their meaning in the caller
                 blk = _as_block(body)
@@ -418,7 +457,10 @@ def inline_helpers(doc, anchors):
                 for q in ps:
                     q["id"] += offset
                 sites[0] += 1
-                return {"k": "Closure", "ty": n.get("ty"), "sp": n.get("sp"), "def": h, "params": ps, "body": _fresh(ht["value"], offset, {}), "inlined": h}
+                cbody = _fresh(ht["value"], offset, {})
+                instantiate(cbody, n)
+                instantiate(ps, n)
+                return {"k": "Closure", "ty": n.get("ty"), "sp": n.get("sp"), "def": h, "params": ps, "body": cbody, "inlined": h}
             return n
 
         for p, bs in bodies.items():
@@ -897,9 +939,25 @@ def try_for_each_to_for(root):
 
 # ------------------------------------------------------------------------------------------------ G: guard clauses
 
+_ERR_FNS = set()
+
+
 def _is_err_value(e):
     e = tir.strip(e or {})
-    return e.get("k") == "Call" and (e.get("path") or "").endswith("::Err")
+    if e.get("k") == "Call" and ((e.get("path") or "").endswith("::Err") or (e.get("path") or "") in _ERR_FNS):
+        return True
+    return False
+
+
+def always_err_fns(doc):
+    """local functions whose body is just `Err(..)` (error-construction helpers such as `fn bad_data<T>(msg) -> Result<T>`)"""
+    out = set()
+    for b in doc["bodies"]:
+        if b.get("tir") and b["kind"] in ("Fn", "AssocFn"):
+            v = tir.strip(b["tir"]["value"])
+            if v.get("k") == "Call" and (v.get("path") or "").endswith("::Err"):
+                out.add(b["path"])
+    return out
 
 
 def _ends_with_plain_return(blk):
@@ -954,12 +1012,108 @@ def guards_to_if_else(body_root):
     return n
 
 
+# ------------------------------------------------------------------------------------------------ K: new constants
+
+def const_int_value(doc, path, bodies, depth=0):
+    """value of an integer constant item built from literals, casts, + - * and other such constants; None otherwise"""
+    b = bodies.get(path)
+    if b is None or depth > 6:
+        return None
+
+    def ev(e):
+        e = tir.strip(e)
+        k = e.get("k")
+        if k == "Lit" and e.get("lit") == "int":
+            return e.get("v")
+        if k == "Cast" and e.get("ty") in INT_RANGE:
+            return ev(e["e"])
+        if k == "Unary" and e.get("op") == "Neg":
+            v = ev(e["e"])
+            return None if v is None else -v
+        if k == "Binary" and e.get("op") in ("Add", "Sub", "Mul"):
+            l, r = ev(e["l"]), ev(e["r"])
+            if l is None or r is None:
+                return None
+            return l + r if e["op"] == "Add" else (l - r if e["op"] == "Sub" else l * r)
+        if k == "Path" and e.get("res") == "def" and (e.get("dk") or "").startswith("Const"):
+            return const_int_value(doc, e.get("path"), bodies, depth + 1)
+        return None
+    return ev(b["tir"]["value"])
+
+
+def inline_new_consts(doc, pinned_consts):
+    """a constant item that does not exist on the pinned tree and has an integer literal value is replaced by that literal at its uses
+    (`const BLOCK: usize = 512;` named for readability)"""
+    bodies = {b["path"]: b for b in doc["bodies"] if b.get("tir") and (b["kind"].startswith("Const") or b["kind"].startswith("Static"))}
+    new = {}
+    for c in doc["items"]["consts"]:
+        p = c["path"]
+        if p in pinned_consts or c.get("ty") not in INT_RANGE:
+            continue
+        v = const_int_value(doc, p, bodies)
+        if isinstance(v, int):
+            new[p] = (v, c.get("ty"))
+    if not new:
+        return {}
+
+    def f(n):
+        if n.get("k") == "Path" and n.get("res") == "def" and n.get("path") in new and (n.get("dk") or "").startswith("Const"):
+            v, ty = new[n["path"]]
+            return {"k": "Lit", "ty": ty, "sp": n.get("sp"), "lit": "int", "v": v, "canon": "const:" + n["path"].split("::")[-1]}
+        return n
+    def fix_pat(p):
+        """constant patterns (`UBJSON_U8 => ..`) become literal patterns"""
+        if not isinstance(p, dict):
+            return p
+        k = p.get("k")
+        path = None
+        if k == "Lit" and isinstance(p.get("e"), dict) and p["e"].get("k") == "Path":
+            path = p["e"].get("path")
+        elif k == "Path":
+            path = p.get("path")
+        if path in new:
+            v, ty = new[path]
+            return {"k": "Lit", "ty": ty, "sp": p.get("sp"), "e": {"k": "Lit", "neg": v < 0, "lit": "int", "v": abs(v)}, "canon": "const:" + path.split("::")[-1]}
+        if k == "Range":
+            for key in ("lo", "hi"):
+                e = p.get(key)
+                if isinstance(e, dict) and e.get("k") == "Path" and e.get("path") in new:
+                    v, ty = new[e["path"]]
+                    p[key] = {"k": "Lit", "neg": v < 0, "lit": "int", "v": abs(v), "ty": ty}
+        for key in ("sub", "pat", "mid"):
+            if isinstance(p.get(key), dict):
+                p[key] = fix_pat(p[key])
+        for key in ("pats", "before", "after"):
+            if isinstance(p.get(key), list):
+                p[key] = [fix_pat(q) for q in p[key]]
+        for fl in p.get("fields", []) or []:
+            if isinstance(fl, dict) and "pat" in fl:
+                fl["pat"] = fix_pat(fl["pat"])
+        return p
+    for b in doc["bodies"]:
+        if b.get("tir"):
+            b["tir"]["value"] = rewrite(b["tir"]["value"], f)
+            for n in tir.walk(b["tir"]["value"]):
+                if n.get("k") == "Match":
+                    for a in n["arms"]:
+                        a["pat"] = fix_pat(a["pat"])
+                if n.get("k") in ("Let", "LetCond") and isinstance(n.get("pat"), dict):
+                    n["pat"] = fix_pat(n["pat"])
+    return {k: v[0] for k, v in new.items()}
+
+
 # ------------------------------------------------------------------------------------------------ entry point
 
 def canonicalise(doc):
     with open(os.path.join(VERIF, "rules", "anchors.json")) as fh:
-        anchors = json.load(fh)["fns"]
+        adoc = json.load(fh)
+    anchors = adoc["fns"]
+    kc = inline_new_consts(doc, set(adoc.get("consts", [])))
+    if kc:
+        doc["_inlined_consts"] = kc
     n_guards = 0
+    _ERR_FNS.clear()
+    _ERR_FNS.update(always_err_fns(doc))
     for b in doc["bodies"]:
         if b.get("tir") and b["kind"] in ("Fn", "AssocFn"):
             n_guards += guards_to_if_else(b["tir"]["value"])
